@@ -162,7 +162,13 @@ func VerifC15_History() {
 func VerifC15_Bare() {
 	L := zzBound("LB", 2, 3)
 	page := func(v int) string {
-		return "---\nstep: " + strconv.Itoa(v) + "\ntitle: first\n---\n<template :step=\"step + 1\" title=\"seen\"></template><h1>{{ title }} {{ step }}</h1><ul><li v-for=\"i in xs\"><template :step=\"step + 1\"></template>{{ step }}</li></ul>"
+		// an expression whose text changes, from one version to the next,
+		// by the blanks inside a string literal only
+		lit := "' '"
+		if (v/10)%2 == 1 {
+			lit = "'  '"
+		}
+		return "---\nstep: " + strconv.Itoa(v) + "\ntitle: first\n---\n<b v-if=\"'a' + " + lit + " == 'a '\">narrow</b><u>{{ 'r' + " + lit + " + 'v' }}</u><template :step=\"step + 1\" title=\"seen\"></template><h1>{{ title }} {{ step }}</h1><ul><li v-for=\"i in xs\"><template :step=\"step + 1\"></template>{{ step }}</li></ul>"
 	}
 	fsys := newZZFS(map[string]string{"page.vuego": page(0)})
 	fsys.mtime["page.vuego"] = 2
